@@ -414,7 +414,9 @@ func genBytes(t *rapid.T) bcase {
 	bc.input = in
 	np := rapid.IntRange(0, 6).Draw(t, "nprogs")
 	for i := 0; i < np; i++ {
-		bc.progs = append(bc.progs, genProg(t))
+		pr := genProg(t)
+		pr.swallow = "" // the byte-level reference model assumes handlers that return read errors
+		bc.progs = append(bc.progs, pr)
 	}
 	return bc
 }
